@@ -12,6 +12,7 @@ from pyval import enc, norm, norm_res, exc_code
 
 from vinegar import data_source as DS
 from vinegar.utils.version import version_for_str
+from vinegar.utils.smart_dict import SmartLookupDict
 
 
 # ----------------------------------------------------------------------------- real code runners
@@ -48,6 +49,7 @@ WRAPS = {
     "userdict": lambda d: collections.UserDict(d),
     "custom": lambda d: CustomMapping(d),
     "ordered": lambda d: collections.OrderedDict(d),
+    "smart": lambda d: SmartLookupDict(d),          # the project's own Mapping: get() resolves "a:b" paths and list indices
 }
 
 
@@ -56,7 +58,7 @@ def wrapify(v, kind, top=True):
     Sequence (the model sees mapping / set / sequence: the classification is by collections.abc)"""
     if isinstance(v, dict):
         d = {k: wrapify(x, kind, False) for k, x in v.items()}
-        if top and kind != "all":
+        if top and kind not in ("all", "smart"):
             return d
         return WRAPS["custom" if kind == "all" else kind](d)
     if isinstance(v, list):
@@ -102,7 +104,10 @@ class Recording(DS.DataSource):
 
     def set(self, s):
         """the source's backing data changes (a history on one composite)"""
-        self.out = ("ok", s["data"], s["ver"]) if s["exc"] is None else ("exc", RAISES[s["exc"]])
+        data = s["data"]
+        if s.get("smart") and s["exc"] is None:
+            data = wrapify(copy.deepcopy(data), "smart")
+        self.out = ("ok", data, s["ver"]) if s["exc"] is None else ("exc", RAISES[s["exc"]])
         self.found, self.fexc = s["find"], s.get("fexc")
 
     def get_data(self, system_id, preceding_data, preceding_data_version):
@@ -434,7 +439,23 @@ class C13(Check):
         # Mapping / Set / Sequence types other than dict / set / list / tuple in every nested position (the classification is
         # by collections.abc): MappingProxyType, ChainMap, UserDict, OrderedDict, custom Mapping, frozenset, custom Sequence
         wvals = [{"x": 1}, {"x": {"y": 1}}, {}, [1, 2], [2, 3], {1, 2}, {2}, 5, None, (1,), "s"]
-        for kind in ("proxy", "chainmap", "userdict", "custom", "ordered", "all"):
+        # SmartLookupDict as either tree, with keys of the other tree that are ":"-paths or list indices into it, and non-str keys
+        sm_a = [{"boot:kernel": 1, "boot": {"initrd": 2}}, {"l:0": "x", "l": ["a0"]}, {1: "int", "1": "str", None: 0}, {"a:b:c": 1, "a": {"b": {"d": 2}}},
+                {"boot:kernel": {"deep": 1}}, {":": 1, "": {"": 2}}, {"boot": {"kernel:x": 1}}]
+        sm_b = [{"boot": {"kernel": "K"}}, {"l": ["e0", "e1"]}, {"a": {"b": {"c": "C"}}}, {"1": {"x": 1}}, {"": {"": "E"}}, {"boot": {"kernel": {"x": 9}}},
+                {"boot": {"kernel": {"deep": 2}}, "boot:kernel": {"flat": 3}}]
+        for x in sm_a:
+            for y in sm_b:
+                for ml, ms in flags[1:3]:
+                    yield {"kind": "merge", "a": x, "b": y, "ml": ml, "ms": ms, "wrap": "smart"}
+                    yield {"kind": "merge", "a": y, "b": x, "ml": ml, "ms": ms, "wrap": "smart"}
+        for i, x in enumerate(sm_a):
+            y = sm_b[i % len(sm_b)]
+            srcs = [{"data": x, "ver": "v0", "exc": None, "find": None, "fexc": None, "smart": True},
+                    {"data": y, "ver": "v1", "exc": None, "find": None, "fexc": None, "smart": True},
+                    {"data": x, "ver": "v2", "exc": None, "find": None, "fexc": None}]
+            yield {"kind": "chain", "ml": False, "ms": True, "srcs": srcs, "sys": "s1", "pd": {}, "pv": "", "fk": "mac", "fv": 1}
+        for kind in ("proxy", "chainmap", "userdict", "custom", "ordered", "all", "smart"):
             for x in wvals:
                 for y in wvals:
                     for ml, ms in (flags if kind in ("proxy", "custom") else flags[1:2]):
@@ -443,7 +464,7 @@ class C13(Check):
         for _ in range(300 if tier == "quick" else 6000):
             ml, ms = rng.choice(flags)
             yield {"kind": "merge", "a": pyval.rand_tree(rng, 3, keys=("a", "b", 1)), "b": pyval.rand_tree(rng, 3, keys=("a", "b", 1)),
-                   "ml": ml, "ms": ms, "wrap": rng.choice(["proxy", "chainmap", "userdict", "custom", "all"])}
+                   "ml": ml, "ms": ms, "wrap": rng.choice(["proxy", "chainmap", "userdict", "custom", "all", "smart"])}
         # nested composites: a composite (with its OWN merge flags) as a constituent of another composite
         leafs = [{"data": {"l": [1, 2], "s": {1}, "d": {"p": [1]}}, "ver": "v0", "exc": None, "find": None, "fexc": None},
                  {"data": {"l": [2, 3], "s": {2}, "d": {"p": [2]}}, "ver": "v1", "exc": None, "find": "one", "fexc": None},
@@ -462,6 +483,22 @@ class C13(Check):
                     yield {"kind": "chain", "ml": oml, "ms": oms, "srcs": srcs, "sys": "s1", "pd": {"l": [0]}, "pv": "p0",
                            "fk": "mac", "fv": 1}
         # non-ASCII version strings, among them canonically equivalent but different ones (composed / decomposed)
+        wvers = ["rev-7", "rev-7\n", "rev-7 ", " rev-7", "rev-7\t", "", " ", "\n", "17", "17 ", "1 7", "\u00a017", "17\r\n"]
+        for i, v1 in enumerate(wvers):
+            for v2 in wvers[i + 1:]:
+                for pos in (0, 1):
+                    base = [{"data": {"a": 1}, "ver": "k0", "exc": None, "find": None, "fexc": None},
+                            {"data": {"b": 1}, "ver": "k1", "exc": None, "find": None, "fexc": None}]
+                    one, two = [dict(x) for x in base], [dict(x) for x in base]
+                    one[pos]["ver"], two[pos]["ver"] = v1, v2
+                    steps = [{"srcs": [dict(x) for x in srcs], "sys": "s1", "pd": {}, "pv": pv, "fk": "mac", "fv": 1}
+                             for srcs in (one, two, one) for pv in ("p0",)]
+                    yield {"kind": "chist", "ml": False, "ms": True, "steps": steps}
+        # the caller's preceding version differing only in white space
+        for pv1, pv2 in (("p", "p "), ("", " "), ("p", "p\n"), (" p", "p")):
+            srcs = [{"data": {"a": 1}, "ver": "k0", "exc": None, "find": None, "fexc": None}]
+            yield {"kind": "chist", "ml": False, "ms": True,
+                   "steps": [{"srcs": [dict(x) for x in srcs], "sys": "s1", "pd": {}, "pv": pv, "fk": "mac", "fv": 1} for pv in (pv1, pv2, pv1)]}
         uvers = ["Ren\u00e9", "Rene\u0301", "\u00c5", "A\u030a", "\u212b", "\u00e9", "e\u0301", "v\u00fc|x", "\U0001f600", "\u00df", "ss"]
         for v1 in uvers:
             for v2 in uvers:
